@@ -151,6 +151,7 @@ type hsub struct {
 	shared     *conn  // the connection (Subscriber object) the subscription was made by
 	marker     string // the response key that says a message is for this subscription
 	lastRound  int    // (shared connections) the publish that last brought this subscription a message
+	idVar      int    // how the request that registered it writes the id argument (Op.IDVar)
 }
 
 // conn is one client connection that holds several subscriptions: ONE Subscriber object behind all
@@ -252,6 +253,11 @@ type Op struct {
 	Nil int `json:"nil_event,omitempty"`
 	// NoMarker (subscribe): the selection gets no marker key (the subscription has a connection of its own)
 	NoMarker bool `json:"no_marker,omitempty"`
+	// RootAlias (subscribe): the subscription field of the request carries this alias
+	RootAlias string `json:"root_alias,omitempty"`
+	// IDVar (subscribe): the id argument is written as a variable - 1: with the pattern as its
+	// default and no value, 2: given a value (the default is something else)
+	IDVar int `json:"id_var,omitempty"`
 	// ReuseOf > 0: this subscription request is not parsed afresh, the parsed request of the
 	// ReuseOf-th subscribe step (1-based) is resolved again (same selection, same id)
 	ReuseOf int `json:"reuse_of,omitempty"`
@@ -337,6 +343,12 @@ func genCaseC19(rt *rapid.T) *c19Case {
 			}
 			if rapid.IntRange(0, 3).Draw(rt, lab+"conditioned") == 0 {
 				op.Cond = rapid.SampledFrom([]string{"include-default", "skip-default", "include-given", "include-literal"}).Draw(rt, lab+"cond")
+			}
+			if rapid.IntRange(0, 3).Draw(rt, lab+"rootAliased") == 0 {
+				op.RootAlias = rapid.SampledFrom([]string{"mine", "watch", "listen", "id"}).Draw(rt, lab+"rootAlias")
+			}
+			if rapid.IntRange(0, 3).Draw(rt, lab+"idByVariable") == 0 {
+				op.IDVar = rapid.IntRange(1, 2).Draw(rt, lab+"idVar")
 			}
 			op.FailAt = rapid.SliceOfNDistinct(rapid.IntRange(1, 4), 0, 2, rapid.ID[int]).Draw(rt, lab+"failPlan")
 			op.Field = rapid.SampledFrom([]string{"watch", "listen"}).Draw(rt, lab+"field")
@@ -590,6 +602,7 @@ func runHistory(cc *c19Case) (ds []hx.Discrepancy, traits map[string]bool, hist 
 			}
 			if op.ReuseOf > 0 && op.ReuseOf <= len(all) {
 				h.sels, h.marker = all[op.ReuseOf-1].sels, all[op.ReuseOf-1].marker // (the parsed request that is resolved again carries that step's marker)
+				h.idVar = all[op.ReuseOf-1].idVar
 			}
 			if op.ShareWith > 0 && op.ShareWith <= len(all) && op.ReuseOf == 0 {
 				unique := h.marker != ""
@@ -631,6 +644,34 @@ func runHistory(cc *c19Case) (ds []hx.Discrepancy, traits map[string]bool, hist 
 			if op.Cond != "" {
 				traits["conditioned-subscription-field"] = true
 			}
+			if op.RootAlias != "" && op.ReuseOf == 0 {
+				doc.Ops[0].Sels[0].Alias = op.RootAlias
+				traits["subscription-field-with-an-alias"] = true
+			}
+			if op.ReuseOf == 0 {
+				h.idVar = op.IDVar
+			}
+			if h.idVar == 2 && op.ReuseOf > 0 {
+				// (the parsed request that is resolved again wants its variable)
+				if subVars == nil {
+					subVars = map[string]interface{}{}
+				}
+				subVars["sid"] = h.pattern
+			}
+			if op.IDVar > 0 && op.ReuseOf == 0 {
+				traits["subscription-argument-by-variable"] = true
+				dflt := hx.Str(h.pattern)
+				if op.IDVar == 2 {
+					dflt = hx.Str("zz-not-this")
+					if subVars == nil {
+						subVars = map[string]interface{}{}
+					}
+					subVars["sid"] = h.pattern
+				}
+				doc.Ops[0].Vars = append(doc.Ops[0].Vars, &hx.VarDef{Name: "sid", Type: hx.Named("String"), Default: &dflt})
+				doc.Ops[0].Sels[0].Args = []hx.KV{{Key: "id", V: hx.VarV("sid")}}
+			}
+
 			switch op.Wrap {
 			case "inline", "inline-typed":
 				on := ""
